@@ -66,6 +66,10 @@ type NodeRT struct {
 	CreatedSeq  int // global event sequence number when the node was created
 	CreatedRV   int // server version when the Subscribe/Clone call returned
 	WeClosed    bool
+	// SelfCloseAt > 0: the monitor's own handler calls Close() from inside its
+	// SelfCloseAt-th callback (the "watch until X, then stop" pattern)
+	SelfCloseAt int
+	selfClosed  bool
 	MonLog      []MonCall
 	monBusy     bool
 	HandlerMs   int
@@ -553,6 +557,13 @@ func (h *H) handler(n *NodeRT) kcache.Handler {
 		}
 		if n.BlockHandler != nil {
 			<-n.BlockHandler
+		}
+		if n.SelfCloseAt > 0 && !n.selfClosed && len(n.MonLog) >= n.SelfCloseAt && n.Mon != nil {
+			n.selfClosed = true
+			n.WeClosed = true
+			detsim.Note("%s closes itself from callback %s", n.Name(), kind)
+			detsim.Count("probe:monitor-closed-from-own-callback")
+			n.Mon.Close()
 		}
 		return len(n.MonLog) - 1
 	}
